@@ -28,6 +28,10 @@ type tally struct {
 	dataNotes   int
 	maxSameEsc  int
 	donations   int
+	edgeRecv    int // receives delivered in the block whose time equals the packet timeout
+	edgeRecvOK  int // ... that were accepted (block time == timeout - 5 s or earlier never counts here)
+	edgeTO      int // timeouts proven at exactly the requested destination height
+	edgeTOOK    int
 }
 
 func newTally() *tally { return &tally{kinds: map[int]bool{}} }
@@ -38,6 +42,20 @@ func (ta *tally) note(w *tokensim.World, st *tokensim.Step) {
 	}
 	if st.DataNote != "" {
 		ta.dataNotes++
+	}
+	if st.Edge && st.EdgeAligned && st.HadTx {
+		committed := st.Res.OK && !st.Noop
+		if st.Kind == "recv" {
+			ta.edgeRecv++
+			if committed {
+				ta.edgeRecvOK++
+			}
+		} else {
+			ta.edgeTO++
+			if committed {
+				ta.edgeTOOK++
+			}
+		}
 	}
 	switch st.Effect {
 	case "send":
@@ -127,6 +145,13 @@ func (ta *tally) record(rec *vx.Case, h tokensim.History) {
 	rec.Add("unexpected_error_ack", int64(ta.unexpErr))
 	rec.Add("packet_data_mismatch", int64(ta.dataNotes))
 	rec.Add("donations", int64(ta.donations))
+	rec.Add("race_recv_in_block_with_time_eq_timeout", int64(ta.edgeRecv))
+	rec.Add("race_recv_in_that_block_committed", int64(ta.edgeRecvOK))
+	rec.Add("race_timeout_proven_at_exact_height", int64(ta.edgeTO))
+	rec.Add("race_timeout_at_exact_height_committed", int64(ta.edgeTOOK))
+	if ta.edgeRecv > 0 && ta.edgeTO > 0 {
+		rec.Class("timeout-boundary-race")
+	}
 }
 
 func fmtFindings(fs []tokensim.Finding) string {
